@@ -4,7 +4,9 @@
 (* events recorded from the REAL lock objects.  A recorded execution is    *)
 (* accepted iff every event is enabled in order.                           *)
 (*   enter(t,"w") only when nobody is inside; enter(t,"r") only when no    *)
-(*   writer is inside; exit only by somebody inside; "end" (after the      *)
+(*   writer is inside ("W"/"R" = the lock-FILE lock: two writers never     *)
+(*   hold the file at once; its readers exclude nobody); exit only by      *)
+(*   somebody inside; "end" (after the                                     *)
 (*   harness let every surviving task run to completion) only when every   *)
 (*   task finished (no deadlock, usable after cancellation) and the lock   *)
 (*   object is released (granted write lock always released).              *)
@@ -24,8 +26,10 @@ Init == tid \in 1..N /\ l = 1 /\ inside = {}
 Ev == Traces[tid][l]
 
 Enter == /\ Ev.e = "enter"
-         /\ IF Ev.k = "w" THEN inside = {}
-            ELSE \A x \in inside : x[2] # "w"
+         /\ CASE Ev.k = "w" -> inside = {}                          \* rw-lock writer: alone
+              [] Ev.k = "r" -> \A x \in inside : x[2] # "w"          \* rw-lock reader: no writer
+              [] Ev.k = "W" -> \A x \in inside : x[2] # "W"          \* lock-file writer: no other writer
+              [] OTHER -> TRUE                                       \* lock-file reader: no obligation
          /\ inside' = inside \cup {<<Ev.t, Ev.k>>}
 
 Exit == /\ Ev.e = "exit"
@@ -33,7 +37,7 @@ Exit == /\ Ev.e = "exit"
         /\ inside' = inside \ {<<Ev.t, Ev.k>>}
 
 \* scheduling / cancellation marks carry no obligation
-Note == Ev.e \in {"begin", "resume", "cancel", "leave"} /\ UNCHANGED inside
+Note == Ev.e \in {"begin", "resume", "cancel", "leave", "wake", "fault"} /\ UNCHANGED inside
 
 End == /\ Ev.e = "end"
        /\ Ev.finished /\ Ev.released
